@@ -98,6 +98,60 @@ M.update({
    demo=("value", "TestC09b"), ran=["C09", "C10"], first="caught by C09 quick and C10 quick", strengthened=""),
 })
 
+M.update({
+ "C01b": dict(change="value/value.go GenerateCustom: the compiled code for | with a non-boolean left operand fetches the operator implementation of &",
+   needs="the operator | on two integers of which at least one is not a compile-time constant (all-constant operands are folded with the right table) and whose values differ",
+   demo=("value", "TestC01b"), ran=["C01", "C02"], first="caught by C01 quick and C02 quick (exemplar F2-int-or-at-run-time and the search)", strengthened=""),
+ "C04b": dict(change="parser2.go simpleNumber: the continuation predicate of a number is unicode.IsDigit while a number still starts on any unicode.IsNumber rune",
+   needs="a rune of category No/Nl that is no decimal digit (1/2, circled or roman numerals, subscripts) at a token start: the tokenizer emits empty number tokens forever, Parse never returns (2 bytes suffice)",
+   demo=(".", "TestC04b"), ran=["C04", "C12"], first="caught by C04 quick (watchdog; hostile unicode constants are part of the soups); C12 is inconclusive (its shards hang, exit 2)", strengthened=""),
+ "C06b": dict(change="value/list.go Merge: both operands are iterated on one shared stack",
+   needs="both operands contain a lazy stage that calls its closure on the stack the operand is handed (number, iir, combine, cross, fsm ...) and the closures overlap in time (merge reads one item ahead): wrong element values, wrong merge order, race reports",
+   demo=("value", "TestSeedC06b"), ran=["C06"], first="caught by C06 quick (race detector; sub-pipelines as second operand of merge)", strengthened=""),
+ "C08b": dict(change="value/list.go Single: the 'more than one item' error is formatted with %v of the list, which re-runs the lazy pipeline for up to 11 items",
+   needs="single() on a lazy list that lets at least two items through: closures of the items 2..10 are evaluated, their errors show up, and behind a filter on a 1e11 source the call does not return",
+   demo=("value", "TestC08b"), ran=["C08"], first="missed by C08 (single() was only used behind top(1), where it succeeds)",
+   strengthened="C08: consumer singleMany - single() on a list with more than one item is an error that is decided by the second item; exemplar"),
+ "C10b": dict(change="value/list.go List.Eval: a failing evaluation stores the items in front of the failing one as the list's content",
+   needs="a lazy list that outlives an evaluation (constant-folded pipeline, argument used again) with an item whose computation fails, forced as a whole (size, index, =, append ...) and used again: the second evaluation succeeds on the truncated list",
+   demo=("value", "TestC10b"), ran=["C10", "C09", "C01"], first="missed by C10 and C09 (closures over constant lists that fail at one item were practically never generated)",
+   strengthened="lang generator: lazy lists over constants whose closure fails at one item (throw token or 12 % item), in programs that may fail; C10 exemplar failing-item-in-a-shared-lazy-list; C10 also passes the same argument objects again (reuse_args)"),
+ "C11b": dict(change="value/list.go Order: ToSlice instead of CopyToSlice - order/orderRev sort the receiver's own backing array",
+   needs="an already evaluated list shared between evaluations (a literal folded into the function, one argument object) ordered with a key that depends on the evaluation, and overlapping evaluations (or a result inspected after a later evaluation)",
+   demo=("value", "TestC11b"), ran=["C11", "C09", "C10"], first="caught by C11 quick (race report), C09 quick and C10 quick (the parent is reordered)", strengthened=""),
+ "C12b": dict(change="value/multiUse.go MultiUse: each consumer goroutine is started as soon as its own map entry is validated",
+   needs="a multiUse map with a valid one-argument function in front of an entry that is rejected: MultiUse returns the error before the distributor runs, the consumers already started block forever",
+   demo=("value", "TestC12b"), ran=["C12"], first="missed by C12 (no error paths of multiUse were generated)",
+   strengthened="pipes/C12: terminals multiUseRejected (valid consumers followed by an int, a two-parameter closure or a string) and multiUseFailingConsumer; five pipeline exemplars"),
+ "C13b": dict(change="value/map.go Merge (+): small list maps are merged by appending onto the left operand's slice without copying it",
+   needs="a left operand with spare capacity (result of an earlier small merge or of an accept that dropped an entry) used as left operand of two merges, and the first result observed after the second merge",
+   demo=("value", "TestC13b"), ran=["C13", "C09"], first="missed by C13 and C09 (merges of two handles overlap too often to build chains; no repeated derivation from one operand in C13)",
+   strengthened="C13: operation plusFresh (merge with a one-entry map whose key is new) and re-derivation from the operand of the previous step in a third of the steps; C09: mapPlusFresh"),
+ "C14b": dict(change="value/operations.go Equal: the element comparison of containers returns false for elements of different type before the operator matrix is consulted",
+   needs="operands inside a list or map with different types: [1]=[1.0] is false, [1]=['1'] is false instead of an error",
+   demo=("value", "TestC14b"), ran=["C14", "C07"], first="caught by C14 quick", strengthened=""),
+ "C15b": dict(change="token.go peek: a carriage return inside a block comment counts as a line break",
+   needs="comments enabled and a CR (e.g. CR LF line ends) inside a block comment: every later token and error reports a line that is too high",
+   demo=(".", "TestC15b"), ran=["C15"], first="missed by C15 (block comments only contained line feeds)",
+   strengthened="C15: line ends of every convention (LF, CR LF, CR) inside block comments; exemplar"),
+ "C16b": dict(change="funcGen/generator.go FunctionCall on a closure value: the arguments are compiled without reserving the slots of the pending arguments (partial revert of the repair F1)",
+   needs="an attribute of the implicit map that holds a closure, used as callee, and a let inside a non-first argument of that call",
+   demo=("value", "TestC16b"), ran=["C16", "C01"], first="caught by C16 quick and C01 quick (exemplar F1)", strengthened=""),
+ "C17b": dict(change="value/export/export.go Export: a 'skip a key that is delivered twice' guard whose sentinel is the empty string",
+   needs="a map (any representation, any depth) with the key \"\": the entry is dropped",
+   demo=("value/export", "TestC17b"), ran=["C17"], first="caught by C17 quick (empty keys are generated)", strengthened=""),
+ "C18b": dict(change="value/export/html.go toHtml: in the list branch the !ok check comes before the err check",
+   needs="a failure one level down while an item of a list is rendered (failing lazy list as table row or entry, failing ToString, failing style closure): ToHtml reports success with a truncated fragment",
+   demo=("value/export", "TestC18b"), ran=["C18"], first="caught by C18 quick", strengthened=""),
+ "C19b": dict(change="funcGen/optimizer.go: the regrouping test compares operator priorities instead of operators, and the regrouped node no longer carries its priority",
+   needs="optimizer on, the lowest-priority operator flagged commutative (bool ^) on top of a chain of a different commutative operator with constants on both sides of a variable: true&a&true^true",
+   demo=("example", "TestC19b"), ran=["C19", "C02"], first="caught by C19 quick (inside the exhaustive bool domain); C02 does not see it (value.New has no commutative lowest-priority operator)", strengthened=""),
+ "C20b": dict(change="value/binning.go collectBinning1d: the sums adopt the first part's values slice and later parts are added in place",
+   needs="a 1d binning with at least two parts whose first part's binning value is used again (collected a second time, inspected): the part changes, a second collectBinning differs",
+   demo=("value", "TestC20b"), ran=["C20"], first="missed by C20 (the parts handed to collectBinning were rebuilt copies, collected once)",
+   strengthened="C20: collectBinning over the implementation's own binning values, twice; the parts must stay unchanged and both sums equal the binning of the whole"),
+})
+
 def results():
     res = {}
     p = "/verif/seeded/RESULTS.txt"
